@@ -40,10 +40,11 @@ pub struct Scenario {
     pub full_range_only: bool,
     pub v2_only: bool,
     pub liq_bits: (u32, u32),
+    pub rewards: bool,
 }
 
 /// Build a fresh world with one pool; returns the scenario description.
-pub fn build_world(seed: u64, tokens: &str, rec: &mut Recorder) -> (World, Scenario) {
+pub fn build_world(seed: u64, tokens: &str, rewards: bool, rec: &mut Recorder) -> (World, Scenario) {
     let mut w = World::new(seed);
     let proto = pick(&mut w, &[0u16, 300, 1000, 2500]);
     w.init_config("C1", proto);
@@ -100,6 +101,24 @@ pub fn build_world(seed: u64, tokens: &str, rec: &mut Recorder) -> (World, Scena
     let ix = if v2 { w.ix_init_pool_v2("P1", "C1", "A", "B", spacing, sp) } else { w.ix_init_pool("P1", "C1", "A", "B", spacing, sp) };
     w.must_ix(&ix);
     w.pools.get_mut("P1").unwrap().dynamic = w.rng.gen_bool(0.5);
+    // fee-growth accumulators start anywhere in u128, often just below wrap-around (indistinguishable
+    // from a long prior history: no tick or position exists yet)
+    {
+        let key = w.pools["P1"].key;
+        let vals: Vec<u128> = (0..2)
+            .map(|_| match w.rng.gen_range(0..4) {
+                0 => 0,
+                1 => u128::MAX - (w.rng.gen::<u64>() as u128 % 1_000_000_000),
+                2 => u128::MAX - (w.rng.gen::<u128>() >> 40),
+                _ => w.rng.gen::<u128>(),
+            })
+            .collect();
+        let a = w.bank.accts.get_mut(&key).unwrap();
+        let off_a = 8 + 32 + 1 + 2 + 2 + 2 + 2 + 16 + 16 + 4 + 8 + 8 + 32 + 32;
+        a.data[off_a..off_a + 16].copy_from_slice(&vals[0].to_le_bytes());
+        let off_b = off_a + 16 + 32 + 32;
+        a.data[off_b..off_b + 16].copy_from_slice(&vals[1].to_le_bytes());
+    }
     // candidate bounds shared between positions
     let mut bounds: Vec<i32> = vec![];
     if full_range_only {
@@ -129,7 +148,7 @@ pub fn build_world(seed: u64, tokens: &str, rec: &mut Recorder) -> (World, Scena
         bounds.dedup();
     }
     let liq_hi = pick(&mut w, &[20u32, 40, 50, 64, 80]);
-    let sc = Scenario { pool: "P1".into(), users: vec!["U1".into(), "U2".into(), "U3".into()], bounds, full_range_only, v2_only: tokens != "spl", liq_bits: (1, liq_hi) };
+    let sc = Scenario { pool: "P1".into(), users: vec!["U1".into(), "U2".into(), "U3".into()], bounds, full_range_only, v2_only: tokens != "spl", liq_bits: (1, liq_hi), rewards };
     rec.reset(&mut w, json!({"seed": nu(seed as u128), "tokens": tokens, "spacing": spacing, "feeRate": fee_rate, "protoRate": proto}));
     (w, sc)
 }
@@ -186,8 +205,16 @@ fn open_positions(w: &World) -> Vec<String> {
     w.positions.iter().filter(|(_, x)| w.bank.accts.contains_key(&x.key)).map(|(n, _)| n.clone()).collect()
 }
 
-fn random_limit(w: &mut World, pool: &str, a_to_b: bool) -> u128 {
+fn random_limit(w: &mut World, sc: &Scenario, pool: &str, a_to_b: bool) -> u128 {
     let sp = w.pool_sqrt_price(pool);
+    if w.rng.gen_bool(0.2) && !sc.bounds.is_empty() {
+        // exactly the price of a tick that bounds positions (the swap then stops exactly on that tick)
+        let t = pick(w, &sc.bounds);
+        let p = price_of(t);
+        if (a_to_b && p < sp) || (!a_to_b && p > sp) {
+            return p;
+        }
+    }
     match w.rng.gen_range(0..6) {
         0 | 1 | 2 => 0,
         3 => {
@@ -213,6 +240,10 @@ pub fn random_step(w: &mut World, sc: &Scenario, rec: &mut Recorder) {
     let pool = sc.pool.clone();
     let pos = open_positions(w);
     let v2 = sc.v2_only || w.rng.gen_bool(0.5);
+    if sc.rewards && w.rng.gen_bool(0.22) {
+        reward_step(w, sc, rec, &pos, v2);
+        return;
+    }
     let r = w.rng.gen_range(0..100);
     if pos.is_empty() || (r < 8 && pos.len() < 7) {
         open_random_position(w, sc, rec);
@@ -223,7 +254,7 @@ pub fn random_step(w: &mut World, sc: &Scenario, rec: &mut Recorder) {
     match r {
         0..=24 => {
             // increase
-            let liq = log_uniform(w, sc.liq_bits.0, sc.liq_bits.1);
+            let liq = if w.rng.gen_bool(0.3) { pick(w, &[1000u128, 1_000_000, 1_000_000_000, 1u128 << 40]) } else { log_uniform(w, sc.liq_bits.0, sc.liq_bits.1) };
             let ix = w.ix_increase(&p, &owner, liq, u64::MAX, u64::MAX, v2);
             rec.exec(w, &ix, false, json!(null));
         }
@@ -270,7 +301,7 @@ pub fn random_step(w: &mut World, sc: &Scenario, rec: &mut Recorder) {
             let a_to_b = w.rng.gen_bool(0.5);
             let exact_in = w.rng.gen_bool(0.6);
             let amount = (log_uniform(w, 0, (sc.liq_bits.1 + 4).min(62)) as u64).max(1);
-            let limit = random_limit(w, &pool, a_to_b);
+            let limit = random_limit(w, sc, &pool, a_to_b);
             let threshold = if exact_in { 0 } else { u64::MAX };
             let ix = w.ix_swap(&pool, &trader, amount, threshold, limit, exact_in, a_to_b, v2);
             rec.exec(w, &ix, false, json!(null));
@@ -294,6 +325,85 @@ pub fn random_step(w: &mut World, sc: &Scenario, rec: &mut Recorder) {
         _ => {
             let ix = w.ix_close_position(&p, &owner);
             rec.exec(w, &ix, false, json!(null));
+        }
+    }
+}
+
+/// Reward-related operations (C11): initialise rewards, fund vaults, change emissions, collect,
+/// advance (occasionally: rewind) the clock.
+fn reward_step(w: &mut World, sc: &Scenario, rec: &mut Recorder, pos: &[String], v2: bool) {
+    let pool = sc.pool.clone();
+    let nrew = w.pools[&pool].rewards.len();
+    match w.rng.gen_range(0..100) {
+        0..=14 => {
+            // next reward index (sometimes a wrong one)
+            let idx = if w.rng.gen_bool(0.85) { nrew as u8 } else { w.rng.gen_range(0..4) };
+            let before = w.pools[&pool].rewards.len();
+            let ix = w.ix_init_reward(&pool, idx, "R", v2);
+            let ex = rec.exec(w, &ix, false, json!(null));
+            if !ex.ok() && w.pools[&pool].rewards.len() > before {
+                w.pools.get_mut(&pool).unwrap().rewards.pop();
+            }
+        }
+        15..=29 if nrew > 0 => {
+            // fund a reward vault (plain token-program instruction, recorded like any other)
+            let i = w.rng.gen_range(0..nrew);
+            let vault = w.pools[&pool].rewards[i].1;
+            let m = w.mints["R"].clone();
+            let amt = log_uniform(w, 30, 58) as u64;
+            let inst = match m.prog {
+                TokProg::Spl => spl_token::instruction::mint_to(&spl_token::ID, &m.key, &vault, &m.auth, &[], amt).unwrap(),
+                TokProg::T22 => spl_token_2022::instruction::mint_to(&spl_token_2022::ID, &m.key, &vault, &m.auth, &[], amt).unwrap(),
+            };
+            let ix = crate::world::Ix { name: "token_mint_to".into(), accts: "", metas: inst.accounts.clone(), extra: vec!["mint".into(), "account".into(), "authority".into()], data: inst.data.clone(), args: json!({"amount": nu(amt as u128)}), program: inst.program_id };
+            rec.exec(w, &ix, true, json!("setup"));
+        }
+        30..=49 if nrew > 0 => {
+            let i = w.rng.gen_range(0..nrew) as u8;
+            let em = match w.rng.gen_range(0..6) {
+                0 => 0,
+                1 => 1u128 << 64,
+                2 => log_uniform(w, 100, 126),
+                3 => log_uniform(w, 30, 64),
+                _ => log_uniform(w, 64, 92),
+            };
+            let ix = w.ix_set_reward_emissions(&pool, i, em, v2);
+            rec.exec(w, &ix, false, json!(null));
+        }
+        50..=69 if nrew > 0 && !pos.is_empty() => {
+            // prefer a position that is in range (it accrues rewards)
+            let in_range: Vec<String> = pos
+                .iter()
+                .filter(|n| {
+                    let t = w.pool_tick(&pool);
+                    w.pos_range(n).map(|(l, lo, up)| l > 0 && lo <= t && t < up).unwrap_or(false)
+                })
+                .cloned()
+                .collect();
+            let p = if !in_range.is_empty() && w.rng.gen_bool(0.8) { pick(w, &in_range) } else { pick(w, pos) };
+            let owner = w.positions[&p].owner.clone();
+            let i = if w.rng.gen_bool(0.9) { w.rng.gen_range(0..nrew) as u8 } else { w.rng.gen_range(0..3) };
+            if w.rng.gen_bool(0.7) {
+                let ix = w.ix_update_fees(&p);
+                rec.exec(w, &ix, false, json!(null));
+            }
+            let ix = w.ix_collect_reward(&p, &owner, i, v2);
+            rec.exec(w, &ix, false, json!(null));
+        }
+        70..=74 => {
+            // a timestamp earlier than the last update: every instruction carrying one must fail
+            let dt = pick(w, &[-1i64, -10, -100000]);
+            rec.tick_clock(w, dt);
+            if !pos.is_empty() {
+                let p = pick(w, pos);
+                let ix = w.ix_update_fees(&p);
+                rec.exec(w, &ix, false, json!("rewind"));
+            }
+            rec.tick_clock(w, -dt);
+        }
+        _ => {
+            let dt = pick(w, &[0i64, 1, 1, 7, 60, 3600, 86400, 31_536_000, 3_000_000_000]);
+            rec.tick_clock(w, dt);
         }
     }
 }
@@ -337,7 +447,7 @@ pub fn run(cfg: &HistCfg, rec: &mut Recorder) {
     rec.crosscheck_every = cfg.crosscheck_every;
     for h in 0..cfg.histories {
         let seed = cfg.seed.wrapping_mul(1_000_003).wrapping_add(h as u64);
-        let (mut w, sc) = build_world(seed, &cfg.tokens, rec);
+        let (mut w, sc) = build_world(seed, &cfg.tokens, cfg.rewards, rec);
         for s in 0..cfg.steps {
             random_step(&mut w, &sc, rec);
             if cfg.drain && (s + 1) % 50 == 0 {
